@@ -702,7 +702,14 @@ func ruleC18IndexContracts(c *Ctx) {
 		if c.P.reachableFrom(f)[f] && selfCalls(f) {
 			why = append(why, "unwind recurses (flattens more than one level)")
 		}
-		loops := rangeLoops(f)
+		// (a pass that only counts -- no append, no store, no call -- decides nothing about the output: a sizing loop in
+		// front of make(..., 0, n) is not a loop over the items in the sense of this rule)
+		var loops []*loopInfo
+		for _, lp := range rangeLoops(f) {
+			if !effectFreeLoop(f, lp) {
+				loops = append(loops, lp)
+			}
+		}
 		if len(loops) != 1 {
 			why = append(why, fmt.Sprintf("%d loops (one over the items expected)", len(loops)))
 		} else {
@@ -1130,6 +1137,9 @@ func (c *Ctx) packageStateUses(f *ssa.Function) (bad []string, nFuncs int) {
 				if roTableOf(gl) != nil {
 					continue // a read-only dispatch table: a constant of the program
 				}
+				if constObjectOf(gl) != nil {
+					continue // a replacer / pattern built once by the package initialiser: a constant of the program
+				}
 				bad = append(bad, fmt.Sprintf("%s uses the package-level variable %s at %s", c.P.funcKey(g), gl.Name(), c.P.Pos(in.Pos())))
 			}
 			if call, isCall := in.(ssa.CallInstruction); isCall {
@@ -1259,7 +1269,9 @@ func ruleC18ArgReader(c *Ctx) {
 			n++
 			apps := 0
 			for _, e := range p.Effects {
-				if isAppendOf(e) {
+				// the indexed form: the list is made with the length of the argument list and round i stores into slot i
+				indexed := ownSlotStore(f, e, lp)
+				if isAppendOf(e) || indexed {
 					apps++
 					v := e.Args[1]
 					if v.Op == "varargs" && len(v.Args) == 1 {
@@ -1454,4 +1466,54 @@ func ruleC18HashStable(c *Ctx) {
 		}
 	}
 	c.Check(len(why) == 0, "c18.hash-stable", "registered:hash", c.P.Pos(h.Pos()), "gob id primed in init; arrays element-wise", strings.Join(uniq(why), "; "))
+}
+
+// ownSlotStore: effect e is the store `list[i] = v` where list was made by this call with len(collection of the loop) elements
+// and i is the index the loop reads its own element with: the indexed twin of `list = append(list, v)`.
+func ownSlotStore(f *ssa.Function, e Effect, lp *loopInfo) bool {
+	if e.Kind != "store" || lp == nil || lp.over == nil || len(e.Args) != 2 {
+		return false
+	}
+	st, ok := e.Instr.(*ssa.Store)
+	if !ok {
+		return false
+	}
+	ia, ok := st.Addr.(*ssa.IndexAddr)
+	if !ok {
+		return false
+	}
+	ms, ok := ia.X.(*ssa.MakeSlice)
+	if !ok || !isLenOf(ms.Len, lp.over) {
+		return false
+	}
+	own := false
+	allInstrs(f, func(_ *ssa.BasicBlock, in ssa.Instruction) {
+		if rd, isIA := in.(*ssa.IndexAddr); isIA && rd.X == lp.over && rd.Index == ia.Index {
+			own = true
+		}
+	})
+	return own
+}
+
+// effectFreeLoop: no block of the loop calls anything (len and cap apart), stores through a pointer, updates a map, sends,
+// defers or starts a goroutine: the loop only computes numbers from what it reads.
+func effectFreeLoop(f *ssa.Function, lp *loopInfo) bool {
+	free := true
+	for _, b := range f.Blocks {
+		if b != lp.header && !inNaturalLoop(lp.header, b) {
+			continue
+		}
+		for _, in := range b.Instrs {
+			switch x := in.(type) {
+			case *ssa.Call:
+				if bi, isB := x.Call.Value.(*ssa.Builtin); isB && (bi.Name() == "len" || bi.Name() == "cap") {
+					continue
+				}
+				free = false
+			case *ssa.Store, *ssa.MapUpdate, *ssa.Send, *ssa.Go, *ssa.Defer, *ssa.Panic, *ssa.Return:
+				free = false
+			}
+		}
+	}
+	return free
 }
